@@ -302,6 +302,28 @@ pub fn run_c07(o: &Opts) -> Report {
         } else if canon(&a) == canon(&b) {
             rep.fail(Failure { stream: "equal-pairs".into(), what: "rebuilt term is not == to the original (C06) so hashing cannot be compared".into(), input: format!("{} vs {}", show(&a), show(&b)), expected: "equal".into(), got: "unequal".into(), known: None });
         }
+        // whatever == says, equal terms must hash equally: near misses of symmetric statements (repeated operands) and
+        // images with the same components and another placeholder index must either be unequal or hash alike
+        if i % 10 == 0 {
+            let (x, y) = (g.term(&mut rng, 3), g.term(&mut rng, 3));
+            let mut pairs: Vec<(Term, Term)> = vec![
+                (Term::new_similarity(x.clone(), x.clone()), Term::new_similarity(x.clone(), y.clone())),
+                (Term::new_equivalence(x.clone(), y.clone()), Term::new_equivalence(y.clone(), y.clone())),
+                (Term::new_equivalence_concurrent(y.clone(), y.clone()), Term::new_equivalence_concurrent(x.clone(), y.clone())),
+                (Term::ImageExtension(0, vec![x.clone(), y.clone()]), Term::ImageExtension(2, vec![x.clone(), y.clone()])),
+                (Term::ImageIntension(1, vec![x.clone()]), Term::ImageIntension(0, vec![x.clone()])),
+            ];
+            pairs.push((Term::new_set_extension(vec![pairs[0].0.clone()]), Term::new_set_extension(vec![pairs[0].1.clone()])));
+            for (p, q) in pairs {
+                rep.evaluations += 1;
+                if p == q || q == p {
+                    let rs = std::collections::hash_map::RandomState::new();
+                    if rs.hash_one(&p) != rs.hash_one(&q) {
+                        rep.fail(Failure { stream: "near-miss-pairs".into(), what: "terms that compare equal hash differently".into(), input: format!("{} vs {}", show(&p), show(&q)), expected: "unequal, or equal hashes".into(), got: "== but different hashes".into(), known: None });
+                    }
+                }
+            }
+        }
         // model case
         let feed = feed_of(&a);
         let mut elems = vec![];
